@@ -523,6 +523,26 @@ class Fn9(FnTranslator):
                 t = self.fresh()
                 return Term(t, rty, binds + [(t, code)])
             return Term('(%s)' % code, rty, binds)
+        if isinstance(f, ast.Attribute) and isinstance(f.value, ast.Name) and f.value.id == 'self' and self.cls is not None \
+                and (f.attr, None) in self.cls.field_methods:
+            tmpl, ptys, rty, fallible = self.cls.field_methods[(f.attr, None)]
+            args = [self.expr(a, env) for a in e.args]
+            if [a.ty for a in args] != list(ptys) or e.keywords:
+                raise Refuse('argument types of self.%s (line %d)' % (f.attr, e.lineno))
+            kt = self.expr(ast.copy_location(ast.Attribute(value=f.value, attr='key', ctx=ast.Load()), f), env)
+            code = tmpl.format(*[a.code for a in args], key=kt.code)
+            return Term('(%s)' % code, rty, sum((a.binds for a in args), []))
+        if isinstance(f, ast.Attribute) and isinstance(f.value, ast.Name) and f.value.id == 'python_aes' and f.attr == 'new' \
+                and len(e.args) == 3 and self.const_int(e.args[1]) in (2, 6) and not e.keywords:
+            key = ('Python_AES', '__init__') if self.const_int(e.args[1]) == 2 else ('Python_AES_CTR', '__init__')
+            fs = self.mod.funcs.get(key)
+            if fs is None:
+                raise Refuse('python_aes.new: %s.%s is not translated' % key)
+            terms = self.bind_args(fs, e, env)
+            code, binds = self.call_code(fs, None, terms)
+            self.fallible = True
+            t = self.fresh()
+            return Term(t, ('obj', fs.cls.rec), binds + [(t, code)])
         fs, recv = self.resolve_fn(f, env)
         if fs is not None:
             terms = self.bind_args(fs, e, env)
@@ -666,9 +686,33 @@ class Fn9(FnTranslator):
             return self.target_name(t.value)
         raise Refuse('assignment target (line %d)' % t.lineno)
 
+    def mut_receivers(self, node):
+        """names rebound because a call inside `node` updates its receiver object"""
+        out = []
+        if self.cls is None:
+            return out
+        for c in ast.walk(node):
+            if not (isinstance(c, ast.Call) and isinstance(c.func, ast.Attribute)):
+                continue
+            f = c.func
+            if isinstance(f.value, ast.Name) and f.value.id == 'self':
+                g = self.mod.funcs.get((self.cls.pyname, f.attr))
+                if g is not None and g.kind == 'method' and g.mut_self:
+                    out += ['self_' + fl for fl, _ in self.cls.fields]
+            elif isinstance(f.value, ast.Attribute) and isinstance(f.value.value, ast.Name) and f.value.value.id == 'self':
+                ft = self.cls.ftype(f.value.attr)
+                if isinstance(ft, tuple) and ft[0] == 'obj':
+                    oc = self.mod.class_by_rec(ft[1])
+                    g = self.mod.funcs.get((oc.pyname, f.attr))
+                    if g is not None and g.kind == 'method' and g.mut_self:
+                        out.append('self_' + f.value.attr)
+        return out
+
     def assigned(self, stmts):
         out = []
         for s in stmts:
+            if isinstance(s, (ast.Assign, ast.AugAssign, ast.Expr)):
+                out += self.mut_receivers(s)
             if isinstance(s, ast.Assign):
                 for t in s.targets:
                     if isinstance(t, ast.Tuple):
@@ -864,6 +908,18 @@ class Fn9(FnTranslator):
                     env2[tgt.id] = v.ty
                     self.aliases.setdefault(v.ty[1], set()).add(tgt.id)
                     return cont(env2)
+            # x = obj.method(...)[a:b] where the method updates obj: evaluate the call first
+            if isinstance(s.value, ast.Subscript) and isinstance(s.value.value, ast.Call) and \
+                    isinstance(s.value.value.func, ast.Attribute) and isinstance(s.value.value.func.value, (ast.Name, ast.Attribute)):
+                fs1, _r = self.resolve_fn(s.value.value.func, env)
+                if fs1 is not None and fs1.kind == 'method' and fs1.mut_self:
+                    tmpn = 'call_%d_' % s.lineno
+                    a1 = ast.copy_location(ast.Assign(targets=[ast.Name(id=tmpn, ctx=ast.Store())], value=s.value.value), s)
+                    a2 = ast.copy_location(ast.Assign(targets=[tgt], value=ast.Subscript(
+                        value=ast.Name(id=tmpn, ctx=ast.Load()), slice=s.value.slice, ctx=ast.Load())), s)
+                    ast.fix_missing_locations(a1)
+                    ast.fix_missing_locations(a2)
+                    return self.block([a1, a2] + rest, env, k, monadic)
             # x = obj.method(...) where the method updates obj
             if isinstance(s.value, ast.Call):
                 fs, recv = self.resolve_fn(s.value.func, env)
